@@ -89,7 +89,10 @@ def split_args(a):
         res.append(m.group(1) if m else x)
     return res
 
-RET = {"return(0)": "CR0", "return(1)": "CR1", "return(NULL)": "CRNull", "return": "CRVoid"}
+RET = {"return(0)": "CR0", "return(1)": "CR1", "return(NULL)": "CRNull", "return": "CRVoid",
+       "return(std::numeric_limits<double>::quiet_NaN())": "CRNaN"}
+# what a leading check may hand back: one of RET, or (void ndsplineeval_gradient) the NaN fill of the output buffer
+CHECK_RET = r"(?:(return(?:\((?:\w+|std::numeric_limits<double>::quiet_NaN\(\))\))?);|\{(gradient_failed\(table,evaluates\);return;)\})"
 BIND = re.compile(r"(const )?auto&real_table=\*static_cast<(const )?photospline::splinetable<>\*>\(table->data\)")
 # statements that only repackage arguments (array views, the permutation vector, handing results back): literal text
 PLUMBING = [norm(x) for x in [
@@ -109,9 +112,10 @@ PLUMBING = [norm(x) for x in [
     "*result=nd.release()", "buffer->data=result.first", "buffer->size=result.second",
 ]]
 # a helper that is not a wrapper: fills the caller's gradient buffer with NaN when the evaluation failed
+# (it asks splinetable_ndim — itself a checked wrapper: 0 for a handle without a table — how many slots there are)
 HELPERS = {"gradient_failed": norm("""
-	const auto& real_table=*static_cast<const photospline::splinetable<>*>(table->data);
-	for(uint32_t i=0; i<=real_table.get_ndim(); i++)
+	uint32_t ndim=splinetable_ndim(table);
+	for(uint32_t i=0; i<=ndim; i++)
 		evaluates[i]=std::numeric_limits<double>::quiet_NaN();""")}
 
 def glue_of(rtype, name, params, body):
@@ -129,11 +133,11 @@ def glue_of(rtype, name, params, body):
         if m:
             if m.group(1) not in g["checked"]: g["pre"].append(m.group(1))
             b = b[m.end():]; continue
-        m = re.match(r"if\(([^()]*)\)(return(?:\(\w+\))?);", b)
+        m = re.match(r"if\(([^()]*)\)" + CHECK_RET, b)
         if m and all(re.fullmatch(r"!?\w+(?:->\w+)?", o) for o in m.group(1).split("||")) and m.group(1) != "table->data":
             for o in m.group(1).split("||"):
                 g["checked"].append(o[1:] if o.startswith("!") else o + ":nonnull")
-            r = RET[m.group(2)]
+            r = "CRNaNFill" if m.group(3) else RET[m.group(2)]
             if g["check_ret"] not in ("CRNone", r): raise Unrecognised("%s: the leading checks return different things" % name)
             g["check_ret"] = r; b = b[m.end():]; continue
         break
